@@ -296,7 +296,16 @@ pub enum Step {
     /// The application stays in poll() for `ms` of virtual time (time flows to deadlines/arrivals).
     PollFor { ms: u32 },
     /// A broker PUBLISH that becomes readable `delay_ms` from now.
-    DeliverAt { delay_ms: u32, qos: u8, payload: PayloadSpec },
+    DeliverAt {
+        delay_ms: u32,
+        qos: u8,
+        payload: PayloadSpec,
+        /// `Some((n, tail_ms))`: only the first `n` bytes (at least 1, at most all but one) become
+        /// readable at `delay_ms`, the rest `tail_ms` later (`u32::MAX` = never: the peer stalls
+        /// in the middle of a packet).
+        #[serde(default)]
+        split: Option<(u8, u32)>,
+    },
     /// Consume up to `n` packet identifiers cheaply: QoS 1 publishes that the client refuses
     /// locally because its send window / in-flight slots are exhausted (skipped while it can publish).
     Burn { n: u32 },
